@@ -8,9 +8,13 @@
            from-builds' ancestors (work list with a visited set), then the DFS from the to-build.
    Part 3  RGraph.__init__ / _read_branch / _mk_rcommits / _find_new_rcommits_in_build /
            _mk_bumps_info / the "not merged" pseudo build / included_at registration
-           (ghist.py:532-1114) for ONE parent repository that pins ONE component.
-           The component's finished RGraph (its RBuilds with parents, its bn_map, its
-           branches) is an input ([cinfo]); how it is built is property C06's business.
+           (ghist.py:532-1125) for ONE parent repository that pins SEVERAL components
+           (the per-component loop of _mk_bumps_info, the per-component pending bumps and
+           the per-component registration loop; a component is its position in the list of
+           component graphs handed to RGraph).  The finished RGraph of each component (its
+           RBuilds with parents, its bn_map, its branches) is an input ([cinfo]); how it is
+           built is property C06's business (for a component that pins sub-components itself:
+           this very model, one level down).
 
    Conventions: commits of the parent are numbered by position in a list; RCommit /
    RBuild iids of the parent are [Z] (the pseudo builds start at 10^9 as in the code);
@@ -307,8 +311,14 @@ Record commit := mkC {
   c_parents : list nat;
   c_expl : bool;            (* search_predicate(commit) *)
   c_tags : list bn;         (* successful-build tags on the commit *)
-  c_pin : option bn }.      (* pinned component version (None: no DEPENDS file) *)
-Definition no_commit : commit := mkC [] false [] None.
+  c_pins : list (option bn) }.  (* per component: the pinned version (None: no version file for it) *)
+Definition no_commit : commit := mkC [] false [] [].
+(* the version of component k pinned by the commit *)
+Definition c_pin (k : nat) (c : commit) : option bn := nth k (c_pins c) None.
+
+(* map with the position: f k x_k :: f (k+1) x_(k+1) :: ... *)
+Fixpoint mapi_from {A B} (f : nat -> A -> B) (k : nat) (l : list A) : list B :=
+  match l with [] => [] | a :: r => f k a :: mapi_from f (S k) r end.
 
 Record rcommit := mkRC { rc_commit : nat; rc_parents : list Z; rc_expl : bool }.
 Definition no_rcommit : rcommit := mkRC 0 [] false.
@@ -318,7 +328,9 @@ Record rbuild := mkRB {
   rb_type : Z;                 (* 0 NORMAL, 2 FAKE_NOT_MERGED *)
   rb_parents : list Z;         (* parent_rbuilds keys *)
   rb_rcommits : list Z;        (* rcommits keys *)
-  rb_bump : option bump }.     (* bumps.get(component) *)
+  rb_bumps : list (option bump) }.   (* bumps.get(component k), by position *)
+(* rbuild.bumps.get(component k) *)
+Definition rb_bump (k : nat) (rb : rbuild) : option bump := nth k (rb_bumps rb) None.
 
 Record gst := mkG {
   g_done : list nat;               (* done_commits *)
@@ -399,17 +411,21 @@ Definition find_new (g : gst) (heads : list Z) : list Z * list Z * gst :=
 Definition get_rb (g : gst) (i : Z) : option rbuild :=
   match zfind i (g_cur g) with Some r => Some r | None => zfind i (g_rbs g) end.
 
-(* _mk_bumps_info for the single component *)
-Definition mk_bump (ci : cinfo) (g : gst) (cm : commit) (prb : list Z) : option bump :=
+(* _mk_bumps_info, the body of the loop over the components, for component k with version map
+   [ci]: from_builnums and from_rbuilds are initialised INSIDE the loop body (the fold over the
+   parent builds starts from ([], []) for every component) and only the parent builds' bumps of
+   component k are looked at.  The keys of from_rbuilds are RBuild iids of component k's own
+   repository (an iid is unique within one repository only). *)
+Definition mk_bump (k : nat) (ci : cinfo) (g : gst) (cm : commit) (prb : list Z) : option bump :=
   if nonempty (ci_bnmap ci) then
-    match c_pin cm with
+    match c_pin k cm with
     | None => None
     | Some pin =>
         let to0 := match bnfind pin (ci_bnmap ci) with Some p => Some (snd p) | None => None end in
         let '(fbns, frbs) :=
           fold_left (fun acc p =>
                        match get_rb g p with
-                       | Some rb => match rb_bump rb with
+                       | Some rb => match rb_bump k rb with
                                     | Some pb => (fst acc ++ [b_to_bn pb],
                                                   match b_to pb with
                                                   | Some t => nadd t (snd acc)
@@ -427,6 +443,12 @@ Definition mk_bump (ci : cinfo) (g : gst) (cm : commit) (prb : list Z) : option 
     end
   else None.
 
+(* _mk_bumps_info: {component: ComponentBump}, one entry per component, each computed by itself *)
+Definition mk_bumps (cis : list cinfo) (g : gst) (cm : commit) (prb : list Z) : list (option bump) :=
+  mapi_from (fun k ci => mk_bump k ci g cm prb) 0 cis.
+Definition nontrivial_bump (ob : option bump) : bool :=
+  match ob with Some b => negb (is_trivial b) | None => false end.
+
 (* rc_parents accumulated for a commit from the caches of its parents (last parent first) *)
 Definition rc_parents_of (g : gst) (parents : list nat) : list Z :=
   fold_left (fun acc p =>
@@ -440,9 +462,10 @@ Definition rc_parents_of (g : gst) (parents : list nat) : list Z :=
                     end) (rev parents) [].
 
 (* the part of the DFS loop that finishes a commit: _mk_rcommits + cache registration *)
-Definition finalise (ci : cinfo) (head : nat) (c : nat) (cm : commit) (g : gst) : gst :=
+Definition finalise (cis : list cinfo) (head : nat) (c : nat) (cm : commit) (g : gst) : gst :=
   let rcp := rc_parents_of g (c_parents cm) in
-  let relevant := nonempty (ci_bnmap ci) in
+  (* accumdat.relevant_cmpnts: the components that have report-related builds at all *)
+  let relevant := existsb (fun ci => nonempty (ci_bnmap ci)) cis in
   if negb (c_expl cm || relevant || nonempty rcp) then
     mkG (c :: g_done g) (g_visited g) (g_selected g) (g_prev g) (g_rcs g) (g_rbs g) (g_cnt g)
         (g_fcnt g) (g_bpar g) (g_anc g) (g_cur g) (g_err g)
@@ -453,10 +476,10 @@ Definition finalise (ci : cinfo) (head : nat) (c : nat) (cm : commit) (g : gst) 
       if is_build || is_head then
         let '(nw, prb, g1) := find_new g rcp in
         let bns := match bn_sort (c_tags cm) with [] => [fake_not_built] | l => l end in
-        let bmp := mk_bump ci g1 cm prb in
-        let nontriv := match bmp with Some b => negb (is_trivial b) | None => false end in
+        let bmp := mk_bumps cis g1 cm prb in
+        let nontriv := existsb nontrivial_bump bmp in
         (c_expl cm || nonempty nw || nontriv || (1 <? length prb), bns, nw, prb, bmp, g1)
-      else (false, [], [], [], None, g) in
+      else (false, [], [], [], [], g) in
     if c_expl cm || is_rbuild then
       let iid := g_cnt g1 in
       let rcs := zput iid (mkRC c rcp (c_expl cm)) (g_rcs g1) in
@@ -478,25 +501,49 @@ Definition finalise (ci : cinfo) (head : nat) (c : nat) (cm : commit) (g : gst) 
       end.
 
 (* outer DFS of _read_branch *)
-Fixpoint visit (fuel : nat) (ci : cinfo) (commits : list commit) (head : nat) (c : nat) (g : gst) : gst :=
+Fixpoint visit (fuel : nat) (cis : list cinfo) (commits : list commit) (head : nat) (c : nat) (g : gst) : gst :=
   match fuel with
   | O => set_err Hang g
   | S f =>
       if processed c g then g
       else
         let cm := nth c commits no_commit in
-        let g1 := fold_left (fun s p => visit f ci commits head p s) (rev (c_parents cm)) g in
-        finalise ci head c cm g1
+        let g1 := fold_left (fun s p => visit f cis commits head p s) (rev (c_parents cm)) g in
+        finalise cis head c cm g1
   end.
 
 Definition ci_rb_bn (ci : cinfo) (i : nat) : bn :=
   match nfind i (ci_rbs ci) with Some p => fst p | None => fake_not_built end.
 
+(* the pending bump of component k behind the latest build of the branch (None: nothing pending) *)
+Definition pending_bump (k : nat) (ci : cinfo) (rb : rbuild) : option bump * option err :=
+  match rb_bump k rb with
+  | Some pb =>
+      match b_to pb with
+      | None => (None, None)
+      | Some t =>
+          match bnfind (ci_rb_bn ci t) (ci_bnmap ci) with
+          | None => (None, Some KeyErr)
+          | Some (bri, _) =>
+              match nmax (nth bri (ci_branches ci) []) with
+              | None => (None, Some AttrErr)
+              | Some latest =>
+                  let b := mkB [b_to_bn pb] (ci_rb_bn ci latest) [t] (Some latest) in
+                  (if is_trivial b then None else Some b, None)
+              end
+          end
+      end
+  | None => (None, None)
+  end.
+Definition is_some {A} (o : option A) : bool := match o with Some _ => true | None => false end.
+Definition first_some {A} (l : list (option A)) : option A :=
+  fold_right (fun o acc => match o with Some x => Some x | None => acc end) None l.
+
 (* _read_branch: DFS, then the fake "not merged" build.  [prev] = rbuilds of the
    previously read branch.  Returns the rbuilds of this branch. *)
-Definition read_branch (ci : cinfo) (commits : list commit) (prev : list (Z * rbuild)) (head : nat)
+Definition read_branch (cis : list cinfo) (commits : list commit) (prev : list (Z * rbuild)) (head : nat)
            (g0 : gst) : gst * list (Z * rbuild) :=
-  let g := visit (S (length commits)) ci commits head head
+  let g := visit (S (length commits)) cis commits head head
                  (mkG (g_done g0) (g_visited g0) (g_selected g0) (g_prev g0) (g_rcs g0) (g_rbs g0)
                       (g_cnt g0) (g_fcnt g0) [] [] [] (g_err g0)) in
   let prev_commits := fold_left (fun acc p => zunion acc (rb_rcommits (snd p))) prev [] in
@@ -504,36 +551,20 @@ Definition read_branch (ci : cinfo) (commits : list commit) (prev : list (Z * rb
   let not_merged := filter (fun i => rc_expl (get_rc g i) && negb (zmem i this_commits)) prev_commits in
   let last := zmax (map fst (g_cur g)) in
   let parents := match last with Some i => [i] | None => [] end in
-  let '(pending, e) :=
+  (* pending_cmpnts_bumps: one loop iteration per component that has a bump in the latest build *)
+  let pe :=
     match last with
-    | None => (None, None)
-    | Some i =>
-        match zfind i (g_cur g) with
-        | Some rb =>
-            match rb_bump rb with
-            | Some pb =>
-                match b_to pb with
-                | None => (None, None)
-                | Some t =>
-                    match bnfind (ci_rb_bn ci t) (ci_bnmap ci) with
-                    | None => (None, Some KeyErr)
-                    | Some (bri, _) =>
-                        match nmax (nth bri (ci_branches ci) []) with
-                        | None => (None, Some AttrErr)
-                        | Some latest =>
-                            let b := mkB [b_to_bn pb] (ci_rb_bn ci latest) [t] (Some latest) in
-                            (if is_trivial b then None else Some b, None)
-                        end
-                    end
+    | None => []
+    | Some i => match zfind i (g_cur g) with
+                | Some rb => mapi_from (fun k ci => pending_bump k ci rb) 0 cis
+                | None => []
                 end
-            | None => (None, None)
-            end
-        | None => (None, None)
-        end
     end in
+  let pending := map fst pe in
+  let e := first_some (map snd pe) in
   let g := match e with Some e => set_err e g | None => g end in
   let '(cur, fcnt) :=
-    if nonempty not_merged || (match pending with Some _ => true | None => false end) then
+    if nonempty not_merged || existsb is_some pending then
       (zput (g_fcnt g) (mkRB fake_not_merged 2 parents not_merged pending) (g_cur g), (g_fcnt g + 1)%Z)
     else (g_cur g, g_fcnt g) in
   (mkG (g_done g) (g_visited g) (g_selected g) (zunion (g_prev g) (map fst (g_anc g))) (g_rcs g)
@@ -543,25 +574,27 @@ Definition g_init : gst := mkG [] [] [] [] [] [] 0 1000000000 [] [] [] None.
 
 (* RGraph.__init__: read the branches in the given (already sorted) order;
    self.branches = reversed, without the branches that have no rbuilds *)
-Fixpoint read_branches (ci : cinfo) (commits : list commit) (heads : list (nat * nat))
+Fixpoint read_branches (cis : list cinfo) (commits : list commit) (heads : list (nat * nat))
          (prev : list (Z * rbuild)) (g : gst) (acc : list (nat * list (Z * rbuild)))
   : gst * list (nat * list (Z * rbuild)) :=
   match heads with
   | [] => (g, acc)
   | (name, head) :: r =>
-      let '(g', rbs) := read_branch ci commits prev head g in
-      read_branches ci commits r rbs g' ((name, rbs) :: acc)
+      let '(g', rbs) := read_branch cis commits prev head g in
+      read_branches cis commits r rbs g' ((name, rbs) :: acc)
   end.
 
-(* "register 'included_at' buildnumbers in components": list of
+(* "register 'included_at' buildnumbers in components", the loop of component k (the loop over the
+   components is inside the loop over the branches, but an included_at list belongs to a build of
+   ONE component, so the lists of different components do not interleave): list of
    (component RBuild iid, (parent branch, parent build number)) in registration order *)
-Definition registrations (ci : cinfo) (branches : list (nat * list (Z * rbuild)))
+Definition registrations (k : nat) (ci : cinfo) (branches : list (nat * list (Z * rbuild)))
   : option (list (nat * (nat * bn))) :=
   fold_left (fun acc br =>
      fold_left (fun acc p =>
         let rb := snd p in
         if bn_eqb (rb_bn rb) fake_not_merged then acc
-        else match rb_bump rb with
+        else match rb_bump k rb with
              | None => acc
              | Some b => match acc, rbuilds_in_bump (ci_graph ci) b with
                          | Some a, Some l => Some (a ++ map (fun x => (x, (fst br, rb_bn rb))) l)
@@ -569,21 +602,32 @@ Definition registrations (ci : cinfo) (branches : list (nat * list (Z * rbuild))
                          end
              end) (snd br) acc) branches (Some []).
 
+(* included_at of every RBuild of one component, from its registrations *)
+Definition included_of (ci : cinfo) (regs : list (nat * (nat * bn))) : list (nat * list (nat * bn)) :=
+  map (fun p => (fst p, map snd (filter (fun q => fst q =? fst p) regs))) (ci_rbs ci).
+
+Fixpoint all_some {A} (l : list (option A)) : option (list A) :=
+  match l with
+  | [] => Some []
+  | Some x :: r => match all_some r with Some a => Some (x :: a) | None => None end
+  | None :: _ => None
+  end.
+
 Record report := mkR {
   r_branches : list (nat * list (Z * rbuild));     (* self.branches of the parent *)
   r_rcs : list (Z * rcommit);
-  r_included : list (nat * list (nat * bn)) }.     (* component RBuild iid -> included_at *)
+  r_included : list (list (nat * list (nat * bn))) }.  (* component k -> RBuild iid -> included_at *)
 
-Definition parent_report (ci : cinfo) (commits : list commit) (heads : list (nat * nat)) : res report :=
-  let '(g, acc) := read_branches ci commits heads [] g_init [] in
+Definition parent_report (cis : list cinfo) (commits : list commit) (heads : list (nat * nat)) : res report :=
+  let '(g, acc) := read_branches cis commits heads [] g_init [] in
   match g_err g with
   | Some e => Err e
   | None =>
       let branches := filter (fun br => nonempty (snd br)) acc in
-      match registrations ci branches with
+      match all_some (mapi_from (fun k ci => match registrations k ci branches with
+                                             | Some regs => Some (included_of ci regs)
+                                             | None => None end) 0 cis) with
       | None => Err Hang
-      | Some regs =>
-          Ok (mkR branches (g_rcs g)
-                  (map (fun p => (fst p, map snd (filter (fun q => fst q =? fst p) regs))) (ci_rbs ci)))
+      | Some inc => Ok (mkR branches (g_rcs g) inc)
       end
   end.
